@@ -308,6 +308,246 @@ theorem read_fault_reported_doTR (c : XCtx S) (a : Api) (n : XNet G) (m : Mem)
 
 end lawful
 
+/-! ## C04 / C05 — the clean-up: order, completion, read faults -/
+
+section lawful
+variable {P : Provider S G} {Inv : G → Prop} {spec : G → S → Prop} {clean : G → Prop}
+  {μ : G → S → Nat} {bound : Nat} (hL : LawfulProvider P Inv spec clean μ bound)
+include hL
+
+/-- `RestoreGateway`: it touches only the provider's objects, issues only provider writes, keeps the provider's
+    invariant; when it returns without error the objects are clean; a failed read is reported. -/
+theorem rg_specX (c : XCtx S) (a : Api) (n : XNet G) (m : Mem) :
+    (restoreGatewayX (some P) c a n m).net.stableSel = n.stableSel ∧
+    (restoreGatewayX (some P) c a n m).net.canarySvc = n.canarySvc ∧
+    (restoreGatewayX (some P) c a n m).net.stableExists = n.stableExists ∧
+    NamedWrites (restoreGatewayX (some P) c a n m).writes ∧
+    (Inv n.g → Inv (restoreGatewayX (some P) c a n m).net.g) ∧
+    (Inv n.g → (restoreGatewayX (some P) c a n m).panic = false → (restoreGatewayX (some P) c a n m).err = false →
+      c.hasRef = true → clean (restoreGatewayX (some P) c a n m).net.g) ∧
+    ((restoreGatewayX (some P) c a n m).panic = false →
+      (readFailed a (restoreGatewayX (some P) c a n m).a = true → (restoreGatewayX (some P) c a n m).err = true) ∧
+      ((restoreGatewayX (some P) c a n m).a.armed = true → a.armed = true)) ∧
+    (restoreGatewayX (some P) c a n m).mem.restoreService = m.restoreService ∧
+    (restoreGatewayX (some P) c a n m).mem.removeCanaryService = m.removeCanaryService := by
+  generalize ho : restoreGatewayX (some P) c a n m = o
+  unfold restoreGatewayX at ho
+  by_cases href : c.hasRef = true
+  · simp only [href, not_true_eq_false, if_false] at ho
+    have hinv := hL.inv_finalise a n.g
+    have hw := hL.writes_finalise a n.g
+    have hcl := hL.finalise_clean a n.g
+    have hrf := hL.read_fault_finalise a n.g
+    generalize P.finalise a n.g = r at ho hinv hw hcl hrf
+    cases hp : r.panic
+    · simp only [hp, Bool.false_eq_true, if_false] at ho
+      obtain ⟨f1, m1⟩ := hrf hp
+      cases he : r.err
+      · simp only [he, Bool.false_eq_true, if_false] at ho
+        subst ho
+        exact ⟨rfl, rfl, rfl, hw, hinv, (fun hi _ _ _ => hcl hi hp he), (fun _ => ⟨(fun h => by
+          have := f1 h; rw [he] at this; cases this), m1⟩), rfl, rfl⟩
+      · simp only [he, if_true] at ho
+        subst ho
+        exact ⟨rfl, rfl, rfl, hw, hinv, (fun _ _ h => by cases h), (fun _ => ⟨fun _ => rfl, m1⟩), rfl, rfl⟩
+    · simp only [hp, if_true, XOut.panicked] at ho
+      subst ho
+      exact ⟨rfl, rfl, rfl, NamedWrites.nil, (fun h => h), (fun _ h => by cases h), (fun h => by cases h), rfl, rfl⟩
+  · have href' : c.hasRef = false := by simpa using href
+    simp only [href', Bool.false_eq_true, not_false_eq_true, if_true, XOut.same] at ho
+    subst ho
+    exact ⟨rfl, rfl, rfl, NamedWrites.nil, (fun h => h), (fun _ _ _ h => absurd h href),
+      (fun _ => ⟨(fun h => by rw [readFailed_self] at h; cases h), fun h => h⟩), rfl, rfl⟩
+
+/-- the three calls of `FinalisingTrafficRouting`, with what each guarantees -/
+theorem finalisingX_shape (c : XCtx S) (a : Api) (n : XNet G) (m : Mem) (hi : Inv n.g) (href : c.hasRef = true) :
+    ∃ (w1 w2 w3 : List String),
+      (finalisingTrafficRoutingX (some P) c a n m).writes = w1 ++ w2 ++ w3 ∧
+      (w1 = [] ∨ w1 = ["unpinStable"]) ∧ NamedWrites w2 ∧ (w3 = [] ∨ w3 = ["deleteCanarySvc"]) ∧
+      Inv (finalisingTrafficRoutingX (some P) c a n m).net.g ∧
+      -- the canary Service is removed only after the provider was finalised without error in this very call
+      (w3 = ["deleteCanarySvc"] → clean (finalisingTrafficRoutingX (some P) c a n m).net.g) ∧
+      -- done: un-pinned (the revision label key being known), clean, canary Service gone
+      ((finalisingTrafficRoutingX (some P) c a n m).done = true →
+        clean (finalisingTrafficRoutingX (some P) c a n m).net.g ∧
+        (c.noGen = true ∨ (finalisingTrafficRoutingX (some P) c a n m).net.canarySvc = none) ∧
+        (c.hasRevKey = true → unpinned (finalisingTrafficRoutingX (some P) c a n m).net = true) ∧
+        (finalisingTrafficRoutingX (some P) c a n m).err = false) ∧
+      -- a failed read is reported
+      ((finalisingTrafficRoutingX (some P) c a n m).panic = false →
+        readFailed a (finalisingTrafficRoutingX (some P) c a n m).a = true →
+        (finalisingTrafficRoutingX (some P) c a n m).err = true) := by
+  obtain ⟨a1, a2, a3, aw, ap, arf, am, aun, _, _⟩ := rs_specX c a n m
+  generalize hr1 : restoreStableServiceX c a n m = r1 at a1 a2 a3 aw ap arf am aun
+  have hi1 : Inv r1.net.g := by rw [a1]; exact hi
+  obtain ⟨b1, b2, b3, bw, binv, bcl, brf, _, _⟩ := rg_specX hL c r1.a r1.net r1.mem
+  generalize hr2 : restoreGatewayX (some P) c r1.a r1.net r1.mem = r2 at b1 b2 b3 bw binv bcl brf
+  obtain ⟨c1, c2, c3, cw, cp, carm, cgone, ckeep⟩ := rc_specX c r2.a r2.net r2.mem
+  generalize hr3 : removeCanaryServiceX c r2.a r2.net r2.mem = r3 at c1 c2 c3 cw cp carm cgone ckeep
+  have hi2 : Inv r2.net.g := binv hi1
+  generalize ho : finalisingTrafficRoutingX (some P) c a n m = o
+  unfold finalisingTrafficRoutingX at ho
+  simp only [href, not_true_eq_false, if_false, hr1] at ho
+  by_cases h1 : r1.err = true ∨ r1.done = true
+  · -- the stable Service: error or retry
+    simp only [h1, if_true] at ho
+    subst ho
+    refine ⟨r1.writes, [], [], by simp, aw, NamedWrites.nil, Or.inl rfl, hi1, (fun h => by cases h),
+      (fun h => by cases h), ?_⟩
+    intro _ h
+    exact arf h
+  · simp only [h1, if_false, hr2] at ho
+    have e1 : r1.err = false := by
+      cases h : r1.err
+      · rfl
+      · exact absurd (Or.inl h) h1
+    cases hp2 : r2.panic
+    · simp only [hp2, Bool.false_eq_true, if_false] at ho
+      obtain ⟨f2, m2⟩ := brf hp2
+      have rf1 : readFailed a r1.a = false := by
+        cases hh : readFailed a r1.a
+        · rfl
+        · have := arf hh; rw [e1] at this; cases this
+      by_cases h2 : r2.err = true ∨ r2.done = true
+      · simp only [h2, if_true] at ho
+        subst ho
+        refine ⟨r1.writes, r2.writes, [], by simp, aw, bw, Or.inl rfl, hi2, (fun h => by cases h),
+          (fun h => by cases h), ?_⟩
+        intro _ h
+        cases he2 : r2.err
+        · have n2 : readFailed r1.a r2.a = false := by
+            cases hh : readFailed r1.a r2.a
+            · rfl
+            · have := f2 hh; rw [he2] at this; cases this
+          rw [readFailed_trans rf1 n2 am] at h; cases h
+        · rfl
+      · simp only [h2, if_false, hr3] at ho
+        have e2 : r2.err = false := by
+          cases h : r2.err
+          · rfl
+          · exact absurd (Or.inl h) h2
+        have n2 : readFailed r1.a r2.a = false := by
+          cases hh : readFailed r1.a r2.a
+          · rfl
+          · have := f2 hh; rw [e2] at this; cases this
+        have hcl2 : clean r2.net.g := bcl hi1 hp2 e2 href
+        have hcl3 : clean r3.net.g := by rw [c1]; exact hcl2
+        have hi3 : Inv r3.net.g := by rw [c1]; exact hi2
+        have rf3 : readFailed a r3.a = false := by
+          have := readFailed_trans rf1 n2 am
+          unfold readFailed at this ⊢
+          rw [carm]; exact this
+        by_cases h3 : r3.err = true ∨ r3.done = true
+        · simp only [h3, if_true] at ho
+          subst ho
+          exact ⟨r1.writes, r2.writes, r3.writes, rfl, aw, bw, cw, hi3, (fun _ => hcl3), (fun h => by cases h),
+            (fun _ h => by rw [rf3] at h; cases h)⟩
+        · simp only [h3, if_false] at ho
+          subst ho
+          have e3 : r3.err = false := by
+            cases h : r3.err
+            · rfl
+            · exact absurd (Or.inl h) h3
+          refine ⟨r1.writes, r2.writes, r3.writes, rfl, aw, bw, cw, hi3, (fun _ => hcl3), ?_,
+            (fun _ h => by rw [rf3] at h; cases h)⟩
+          intro _
+          refine ⟨hcl3, ?_, ?_, rfl⟩
+          · by_cases hng : c.noGen = true
+            · exact Or.inl hng
+            · exact Or.inr (cgone e3 href (by simpa using hng))
+          · intro hk
+            have := aun e1 href hk
+            simp only [unpinned] at this ⊢
+            rw [c2, c3, b1, b3]; exact this
+    · simp only [hp2, if_true] at ho
+      subst ho
+      refine ⟨[], r2.writes, [], by simp, Or.inl rfl, bw, Or.inl rfl, hi2, (fun h => by cases h), ?_,
+        (fun h => by rw [hp2] at h; cases h)⟩
+      intro hd
+      -- a panicking provider call is not done
+      unfold restoreGatewayX at hr2
+      simp only [href, not_true_eq_false, if_false] at hr2
+      split at hr2
+      · rw [← hr2] at hd; cases hd
+      · split at hr2 <;> (rw [← hr2] at hp2; cases hp2)
+
+/-- **C04 / C05 (`finalisingX_order`, partial: outside known finding `noRevKey`)** — for every lawful provider:
+    `FinalisingTrafficRouting` un-pins the stable Service first, finalises the provider next and removes the
+    canary Service last, never in another order; the canary Service is removed only by a call that left the
+    provider's objects clean; *done* means un-pinned ∧ clean ∧ canary Service gone (`finalise-restores`).
+    Hypothesis: the revision label key is known (see `finalisingX_order_full_FALSE`). -/
+theorem finalisingX_order_partial (c : XCtx S) (a : Api) (n : XNet G) (m : Mem) (hi : Inv n.g)
+    (hk : c.hasRevKey = true) (cleanAfter : Bool)
+    (hclean : clean (finalisingTrafficRoutingX (some P) c a n m).net.g → cleanAfter = true) :
+    finalisingOrderX c cleanAfter (finalisingTrafficRoutingX (some P) c a n m) = true := by
+  by_cases href : c.hasRef = true
+  · obtain ⟨w1, w2, w3, hw, h1, h2, h3, _, hdel, hdone, _⟩ := finalisingX_shape hL c a n m hi href
+    unfold finalisingOrderX
+    have hph : phasesOrdered (finalisingTrafficRoutingX (some P) c a n m).writes 0 = true := by
+      rw [hw]; exact phasesOrdered_fin w1 w2 w3 h1 h2 h3
+    have hdelB : (if (finalisingTrafficRoutingX (some P) c a n m).writes.contains "deleteCanarySvc" = true
+        then cleanAfter else true) = true := by
+      split
+      · rename_i hc
+        rcases h3 with e | e
+        · exfalso
+          rw [hw, e] at hc
+          have n1 : w1.contains "deleteCanarySvc" = false := by rcases h1 with e1 | e1 <;> rw [e1] <;> decide
+          have n2 := not_mem_delete_of_named h2
+          simp only [List.append_nil, List.contains_iff_mem, List.mem_append] at hc n1 n2
+          rcases hc with hc | hc
+          · rw [← List.contains_iff_mem] at hc; rw [n1] at hc; cases hc
+          · rw [← List.contains_iff_mem] at hc; rw [n2] at hc; cases hc
+        · exact hclean (hdel e)
+      · rfl
+    rw [hph, hdelB]
+    simp only [Bool.true_and]
+    split
+    · rename_i hd
+      simp only [Bool.and_eq_true] at hd
+      obtain ⟨hcl, hcs, hun, _⟩ := hdone hd.1
+      rw [hclean hcl, hun hk]
+      rcases hcs with e | e
+      · simp [e]
+      · simp [e]
+    · rfl
+  · have href' : c.hasRef = false := by simpa using href
+    unfold finalisingOrderX finalisingTrafficRoutingX
+    simp [href', phasesOrdered]
+
+/-- **C05 / C06 (`read_fault_reported`, clean-up)** — a `FinalisingTrafficRouting` call in which some `Get`
+    failed with an error other than NotFound returns that error: it is never *done*, so the caller's clean-up
+    cursor cannot advance past an object that could not be read. -/
+theorem read_fault_reported_finalising (c : XCtx S) (a : Api) (n : XNet G) (m : Mem) (hi : Inv n.g)
+    (hp : (finalisingTrafficRoutingX (some P) c a n m).panic = false)
+    (hr : readFailed a (finalisingTrafficRoutingX (some P) c a n m).a = true) :
+    (finalisingTrafficRoutingX (some P) c a n m).err = true ∧
+    (finalisingTrafficRoutingX (some P) c a n m).done = false := by
+  by_cases href : c.hasRef = true
+  · obtain ⟨_, _, _, _, _, _, _, _, _, hdone, hrf⟩ := finalisingX_shape hL c a n m hi href
+    have he := hrf hp hr
+    refine ⟨he, ?_⟩
+    cases hd : (finalisingTrafficRoutingX (some P) c a n m).done
+    · rfl
+    · have := (hdone hd).2.2.2; rw [he] at this; cases this
+  · have href' : c.hasRef = false := by simpa using href
+    unfold finalisingTrafficRoutingX at hr
+    simp [href', readFailed_self] at hr
+
+/-- the same for the individual clean-up calls the Rollout controller makes one by one -/
+theorem read_fault_reported_tasks (c : XCtx S) (a : Api) (n : XNet G) (m : Mem) :
+    (readFailed a (restoreStableServiceX c a n m).a = true → (restoreStableServiceX c a n m).err = true) ∧
+    ((restoreGatewayX (some P) c a n m).panic = false → readFailed a (restoreGatewayX (some P) c a n m).a = true →
+      (restoreGatewayX (some P) c a n m).err = true) ∧
+    (readFailed a (removeCanaryServiceX c a n m).a = false) := by
+  obtain ⟨_, _, _, _, _, arf, _⟩ := rs_specX c a n m
+  obtain ⟨_, _, _, _, _, _, brf, _⟩ := rg_specX hL c a n m
+  obtain ⟨_, _, _, _, _, carm, _⟩ := rc_specX c a n m
+  refine ⟨arf, fun hp h => (brf hp).1 h, ?_⟩
+  unfold readFailed; rw [carm]; cases a.armed <;> rfl
+
+end lawful
+
 /-! ## match steps and steps with nothing to route -/
 
 /-- a step with neither a weight nor matches is done at once: nothing is read, nothing written, nothing changed -/
